@@ -225,7 +225,9 @@ Proof.
   intros H (Es & Er & Eal & Ead) Ho. pose proof (pvar_eq names a b pos (negb last) Es) as Ep.
   destruct n as [s|s e|i src|width elems|k e|k e|k e]; cbn [resolve_node own_eq] in *; rewrite <- ?Ep.
   - destruct (address_at pos (negb last)) as [ad|]; [|discriminate]. rewrite <- Es. inversion H; subst. eauto.
-  - destruct (eval code_ops _ e []) as [[v c]|]; [|discriminate]. rewrite <- Es. inversion H; subst. eauto.
+  - destruct (eval code_ops _ e []) as [[v c]|]; [|discriminate].
+    try (match type of H with (if ?c then _ else _) = _ => destruct c; [discriminate H|] end).
+    rewrite <- Es. inversion H; subst. eauto.
   - rewrite <- Ho. destruct (nth_error (s_instr a) i) as [d|]; [|discriminate].
     destruct (resolve_encoding defs _ _ (i_matches d)) as [chosen|]; [|discriminate]. inversion H; subst. eauto.
   - eapply data_go_loc; eauto.
@@ -384,7 +386,9 @@ Proof.
     destruct Hsub as (S1 & _ & _). pose proof HI2 as (I1 & _ & _ & I4 & _). destruct (I4 s (S1 s Hz)) as [_ [e' [Hin' Hk']]].
     assert (e' = e) by (eapply const_unique; [exact (proj2 Hnd)|exact Hin'|exact Hin]). subst e'.
     rewrite (const_noop names defs ns Hres (ss x2) pos m s e (proj1 (I1 eq_refl)) Hin Hk').
-    cbn [resolve_node] in HF. destruct (eval code_ops _ e []) as [[v c]|]; [|discriminate]. inversion HF; subst. reflexivity.
+    cbn [resolve_node] in HF. destruct (eval code_ops _ e []) as [[v c]|]; [|discriminate].
+    try (match type of HF with (if ?c then _ else _) = _ => destruct c; [discriminate HF|] end).
+    inversion HF; subst. reflexivity.
   - (* instruction *)
     destruct Hsub as (_ & S2 & _). pose proof HI2 as (I1 & I2 & _). destruct (I2 i (S2 i Hz)) as [_ [d2 [Hd2 Hok2]]].
     rewrite (Hok2 (ss x2) pos m src (proj1 (I1 eq_refl)) Hd2).
@@ -484,6 +488,55 @@ Proof.
         rewrite (nth_error_nth' (s_data (ss x2)) d (mk 0 (Some 0%N)) _ Ent). rewrite <- Stb. rewrite bigint_identical_refl.
         rewrite (set_nth_same_entry _ _ _ Ent). rewrite state_eta. rewrite merge_resolved_r.
         rewrite (nth_error_nth' (s_data (ss x2)) d (mk 0 (Some 0%N)) _ Ent). rewrite Stb. exact R1.
+Qed.
+
+(* ---------- the whole pass ---------- *)
+Lemma step_length n st pos st' r p' : In n ns -> NF n st pos = EOk (st', r, p') -> length (s_data st') = length (s_data st).
+Proof.
+  intros Hin H. pose proof (resolve_node_frame names defs ns m n st pos st' r p' Hin H) as F.
+  symmetry. exact (proj1 (f_data _ _ _ F)).
+Qed.
+
+Lemma replay_pass : forall l, incl l ns -> NoDup (sids l) -> NoDup (iids l) -> NoDup (dids l) ->
+  forall x pos x2, INV x -> labels_ok ns (ss x) -> (forall d, In d (dids l) -> (d < length (s_data (ss x)))%nat) ->
+  passS names defs K true first m l x pos Resolved = EOk (x2, Resolved) ->
+  pass names defs m l (ss x2) pos Resolved = EOk (ss x2, Resolved).
+Proof.
+  induction l as [|n l IH]; intros Hincl Ns Ni Nd x pos x2 HI Hl Hrange H; cbn [passS] in H.
+  - inversion H; subst. reflexivity.
+  - destruct (NS n x pos) as [[[x1 r1] p1]|] eqn:E; [|discriminate].
+    destruct r1; cbn [merge] in H; [|exfalso; eapply passS_sticky; eauto].
+    assert (Hin : In n ns) by (apply Hincl; now left).
+    assert (Hincl' : incl l ns) by (intros y Hy; apply Hincl; now right).
+    destruct (ids_cons n l) as (E1 & E2 & E3). rewrite E1 in Ns. rewrite E2 in Ni. rewrite E3 in Nd.
+    destruct (node_T_to_F n x pos x1 Resolved p1 Hin HI E) as (rF & HF & _ & HI1 & _).
+    assert (Hl1 : labels_ok ns (ss x1)) by (eapply resolve_node_labels_ok; [exact Hdist|exact Hl|exact Hin|exact HF]).
+    destruct (pass_aux l Hincl' x1 p1 x2 HI1 Hl1 H) as (Ha & HI2 & Hl2).
+    destruct (pass_T_to_F l x1 p1 Resolved Resolved x2 Resolved Hincl' HI1 (le_res_refl _) H) as (rF' & HF' & _ & _ & Hsub).
+    pose proof (pass_frame_gen names defs l m l (ss x1) p1 Resolved (ss x2) rF' (fun y Hy => Hy) HF') as Fr.
+    destruct (passS_flags names defs K true first m l x1 p1 Resolved x2 Resolved H) as (_ & _ & Fd).
+    assert (Hlen : length (s_data (ss x1)) = length (s_data (ss x))) by (eapply step_length; eauto).
+    assert (IHr : pass names defs m l (ss x2) p1 Resolved = EOk (ss x2, Resolved)).
+    { apply (IH Hincl' (NoDup_app_r _ _ Ns) (NoDup_app_r _ _ Ni) (NoDup_app_r _ _ Nd) x1 p1 x2 HI1 Hl1); [|exact H].
+      intros d Hd. rewrite Hlen. apply Hrange. rewrite E3. apply in_or_app. now right. }
+    cbn [pass].
+    assert (Step : NF n (ss x2) pos = EOk (ss x2, Resolved, p1)).
+    { destruct n as [s|s e|i src|width elems|k e|k e|k e];
+        try (exact (replay_node _ x pos x1 p1 x2 Hin I HI Hl E HI2 Hl2 Ha Hsub I)).
+      - (* instruction: its stored value is not touched by the rest of the pass *)
+        apply (replay_node _ x pos x1 p1 x2 Hin I HI Hl E HI2 Hl2 Ha Hsub). cbn [own_eq]. apply (proj2 (f_instr _ _ _ Fr)).
+        intro Hi. eapply NoDup_app_disj; [exact Ni| |exact Hi]. cbn. now left.
+      - (* data directive *)
+        cbn [resolve_nodeS] in E. cbn [resolve_node].
+        assert (Hids : dids [NData width elems] = map fst elems) by (unfold dids; cbn [flat_map]; apply app_nil_r).
+        rewrite Hids in Nd, E3.
+        destruct (data_goS_entries names K true first m width elems x pos Resolved _ _ _ E) as (Es & _ & _).
+        eapply (data_replay width elems Hin elems (fun y Hy => Hy) (NoDup_app_l _ _ Nd) x pos Resolved x1 p1 x2 Resolved HI); eauto.
+        + intros d Hd. apply Hrange. rewrite E3. apply in_or_app. now left.
+        + destruct Ha as (A1 & _). congruence.
+        + intros d Hd. assert (Hnot : ~ In d (dids l)) by (intro Hd'; eapply NoDup_app_disj; [exact Nd|exact Hd|exact Hd']).
+          split; [symmetry; apply (proj2 (f_data _ _ _ Fr)); exact Hnot|apply Fd; exact Hnot]. }
+    rewrite Step. cbn [merge]. exact IHr.
 Qed.
 
 End Replay.
